@@ -69,6 +69,7 @@ package signer
 //@ modifies s.manifestAnnotations
 //@ ensures-local[C18.envelope-checked] result2 == nil ==> resp != nil && resp.SignatureEnvelopeType == opts.SignatureMediaType && verifiedContent(envContent, string(resp.SignatureEnvelope), opts.SignatureMediaType) && envContent.Payload.ContentType == envelope.MediaTypePayloadV1 && signedPayload == decPayload(string(envContent.Payload.Content)) && descEqual(desc, signedPayload.TargetArtifact) && annotationsKept(desc, signedPayload.TargetArtifact) && result == resp.SignatureEnvelope && result1 == &envContent.SignerInfo
 //@ ensures-local[C18.request] result2 == nil ==> req.KeyID == s.keyID && req.SignatureEnvelopeType == opts.SignatureMediaType && req.PayloadType == envelope.MediaTypePayloadV1 && string(req.Payload) == jsonEnc(box(payload)) && descEqual(payload.TargetArtifact, desc) && payload.TargetArtifact.Annotations == desc.Annotations
+//@ ensures[C18.envelope-checked-public] result2 == nil ==> result1 != nil && verifyEnvErr(string(result), opts.SignatureMediaType) == nil
 //@ ensures result2 != nil ==> result == nil && result1 == nil
 
 // ---- C07: what the local signer asks notation-core-go to sign ----
@@ -107,3 +108,59 @@ package signer
 //@ at call getDescriptor: assert[C07.blob-keyspec] arg0 == ks && arg1 == descGenFunc
 //@ at call (*PluginSigner).generateSignature: assert[C07.blob-signs-generated] arg1 == desc && arg3 == ks
 //@ at call (*PluginSigner).generateSignatureEnvelope: assert[C07.blob-signs-generated] arg1 == desc
+
+// ---- C18: the signature-generator path and the two public signing entry points of the plugin signer ----
+
+//@ func (*PluginSigner).generateSignature
+//@ props C18 C07
+//@ requires s != nil && ctx != nil && metadata != nil
+//@ at call (*GenericSigner).Sign: assert[C18.primitive-signer] arg1 == desc && typeis(recv.signer, *pluginPrimitiveSigner) && recv.signer.(*pluginPrimitiveSigner).keyID == s.keyID && recv.signer.(*pluginPrimitiveSigner).plugin == s.plugin && recv.signer.(*pluginPrimitiveSigner).keySpec == ks && recv.signer.(*pluginPrimitiveSigner).pluginConfig == pluginConfig
+//@ at call (*GenericSigner).Sign: assert[C18.primitive-signer] arg2.SignatureMediaType == opts.SignatureMediaType && arg2.ExpiryDuration == opts.ExpiryDuration
+//@ ensures[C18.generated-self-verified] result2 == nil ==> result1 != nil && verifyEnvErr(string(result), opts.SignatureMediaType) == nil
+//@ ensures result2 != nil ==> result == nil && result1 == nil
+
+//@ func (*PluginSigner).Sign
+//@ props C18
+//@ requires s != nil && s.plugin != nil && ctx != nil && opts.ExpiryDuration >= 0
+//@ modifies any
+//@ at call (*PluginSigner).generateSignature: assert[C18.sign-args] arg1 == desc && arg2 == opts && arg3 == ks && arg4 == metadata && arg5 == mergedConfig
+//@ at call (*PluginSigner).generateSignatureEnvelope: assert[C18.sign-args] arg1 == desc && arg2 == opts
+//@ ensures[C18.checked-output] result2 == nil ==> result1 != nil && verifyEnvErr(string(result), opts.SignatureMediaType) == nil
+//@ ensures result2 != nil ==> result == nil && result1 == nil
+
+// ---- C12: thin no-panic contracts (generated by `govc sweep`, then completed by hand where a callee needs more) ----
+
+//@ func (*PluginSigner).PluginAnnotations
+//@ props C12
+//@ requires s != nil
+//@ modifies any
+
+//@ func (*pluginPrimitiveSigner).KeySpec
+//@ props C12
+//@ requires s != nil
+//@ modifies any
+
+//@ func New
+//@ props C12
+//@ modifies any
+
+//@ func NewFromFiles
+//@ props C12
+//@ modifies any
+
+//@ func NewFromPlugin
+//@ props C12
+//@ modifies any
+
+//@ func NewGenericSigner
+//@ props C12
+//@ modifies any
+
+//@ func NewGenericSignerFromFiles
+//@ props C12
+//@ modifies any
+
+//@ func NewPluginSigner
+//@ props C12
+//@ modifies any
+
